@@ -563,6 +563,31 @@ def check_handwritten(prog, res, prop="C08"):
                         okx = plain_read(y.args[1])
                         ok = pos == [Fraction(1, 2)] and neg == [Fraction(-1, 2)] and okx
                         d = "template A %s on x / %s; x is a plain field read: %s (%s)" % ({k: str(v) for k, v in sel.items()}, float(c_e), okx, show(y.args[1], ea.names))
+            elif z.op == "bin" and z.args[0] in ("Add", "Sub") and (z.args[2].op == "phi" or (z.args[0] == "Add" and z.args[1].op == "phi")):
+                # template A': z = y + h with h = +1/2 or -1/2 selected by the sign of y  (x + (-c) == x - c exactly in IEEE-754)
+                y, h = (z.args[1], z.args[2]) if z.args[2].op == "phi" else (z.args[2], z.args[1])
+                sgn = 1 if z.args[0] == "Add" else -1
+                sel = {}
+                good = True
+                for pb, v in ea.phi_operands(h):
+                    if not is_lit(v):
+                        good = False
+                        break
+                    facts = [fact_of_guard(gd) for gd in ea.guards(pb) if gd[4] == "switch"]
+                    cmpf = [fc for fc in facts if fc[0] in ("Ge", "Gt", "Lt", "Le") and fc[1] is y and is_const(fc[2]) and fconst(fc[2]) == 0]
+                    if len(cmpf) != 1:
+                        good = False
+                        break
+                    sel[cmpf[0][0]] = sgn * fconst(v)
+                if good and y.op == "bin" and y.args[0] == "Div" and is_lit(y.args[2]):
+                    c_e = fconst(y.args[2])
+                    pos = [v for k, v in sel.items() if k in ("Ge", "Gt")]
+                    neg = [v for k, v in sel.items() if k in ("Lt", "Le")]
+                    okx = plain_read(y.args[1])
+                    ok = pos == [Fraction(1, 2)] and neg == [Fraction(-1, 2)] and okx
+                    d = "template A' (y + h, h in %s selected by the sign of y) on x / %s; x is a plain field read: %s" % ({k: str(v) for k, v in sel.items()}, float(c_e), okx)
+                else:
+                    d = "quantiser shape not recognised: %s" % show(z, ea.names)[:160]
             elif z.op == "bin" and z.args[0] == "Div" and is_lit(z.args[2]) and z.args[1].op == "phi":
                 # template B
                 c_e = fconst(z.args[2])
